@@ -24,6 +24,8 @@ pub enum Pre {
     Normal,
     MissingInput,
     InputIsDirectory,
+    /// the input path is a symbolic link to the real file (a possible operation: the content must round-trip)
+    InputIsSymlink,
     OutputDirectoryMissing,
     OutputParentIsFile,
     OutputIsDirectory,
@@ -139,7 +141,18 @@ impl Engine for C19 {
             2 => r.size_log(1 << 20),
             _ => r.size_log(60_000),
         };
-        let content = if r.chance(1, 4) {
+        let content = if r.chance(1, 10) {
+            // the block encoder's table bookkeeping across blocks ("literals stored raw", then a block that reuses a table)
+            crate::c02::tiled_unit_content(&mut r)
+        } else if r.chance(1, 6) {
+            // the encode-sim's workload (tiled units, H++H blocks, threshold sizes, block-boundary lengths): multi-block
+            // histories of the block encoder reached through the command line
+            let mut rr = r.fork();
+            crate::c02::gen_jobs(&mut rr, Tier::Quick, 0).swap_remove(0).content
+        } else if r.chance(1, 12) {
+            // large periodic files: many full 128 KiB blocks with long matches, read back by the tool in 8 KiB pieces
+            Content::Periodic { period: *r.pick(&[333usize, 1000, 4096, 70001]), len: *r.pick(&[700_000usize, 1_000_000, 1_048_576]), seed: r.next_u64() }
+        } else if r.chance(1, 4) {
             // Huffman-compressible, practically match-free: all bytes end up as literals of one block
             Content::Alphabet { symbols: *r.pick(&[16u16, 40, 64, 100]), len, seed: r.next_u64() }
         } else {
@@ -155,7 +168,8 @@ impl Engine for C19 {
             10 => Level::Num(*r.pick(&[256u16, 1000])),
             _ => Level::Text(r.pick(&["fast", "-1", "1.5", ""]).to_string()),
         };
-        let pre = match r.below(14) {
+        let pre = match r.below(15) {
+            14 => Pre::InputIsSymlink,
             0 => Pre::MissingInput,
             1 => Pre::InputIsDirectory,
             2 => Pre::OutputDirectoryMissing,
@@ -200,6 +214,11 @@ impl Engine for C19 {
         match plan.pre {
             Pre::MissingInput => {}
             Pre::InputIsDirectory => std::fs::create_dir_all(&input).map_err(|e| HarnessError(e.to_string()))?,
+            Pre::InputIsSymlink => {
+                let real = dir.join("the-real-file.dat");
+                std::fs::write(&real, &data).map_err(|e| HarnessError(e.to_string()))?;
+                std::os::unix::fs::symlink("the-real-file.dat", &input).map_err(|e| HarnessError(e.to_string()))?;
+            }
             _ => std::fs::write(&input, &data).map_err(|e| HarnessError(e.to_string()))?,
         }
         match plan.pre {
@@ -252,7 +271,7 @@ impl Engine for C19 {
             s.str(&format!("{:?}{:?}{}{}", plan.pre, std::mem::discriminant(&plan.level), plan.compress_out.is_some(), plan.decompress_out.is_some()));
             s.finish()
         });
-        let pre_ok = matches!(plan.pre, Pre::Normal | Pre::OutputExists);
+        let pre_ok = matches!(plan.pre, Pre::Normal | Pre::OutputExists | Pre::InputIsSymlink);
         let possible = pre_ok && level_possible(&plan.level) == Some(true);
         // (/dev/full reads as an endless stream of zeros: never read it back)
         let out_now = if plan.pre == Pre::OutputDevFull { None } else { std::fs::read(&out_path).ok() };
@@ -423,7 +442,7 @@ impl Engine for C19 {
     fn rule(&self) -> String {
         "one run = one scenario executed by the real ruzstd-cli binary in a fresh scratch directory: file content (0 B ... 1 MiB, block-size boundaries) x file name (several extensions, none, spaces, \
          leading dot) x path spelling (bare name, ./name, absolute) x level option (absent / 0 / 1 / 2-4 / 5, 9, 255 / 256, 1000 / non-numeric) x explicit or defaulted output path x file-system pre-state (normal, missing input, input is a \
-         directory, output directory missing, output's parent is a regular file, output path is a directory, output already exists, /dev/full as probe) followed, when compress succeeded, by decompress \
+         directory, input is a symbolic link, output directory missing, output's parent is a regular file, output path is a directory, output already exists, /dev/full as probe) followed, when compress succeeded, by decompress \
          (explicit or defaulted output, in another working directory) of the archive as written or truncated / bit-flipped / replaced by garbage / emptied. All runs are non-trivial (two processes); \
          distinct = distinct plan hash."
             .to_string()
@@ -453,6 +472,7 @@ impl Engine for C19 {
             "pre.Normal",
             "pre.MissingInput",
             "pre.InputIsDirectory",
+            "pre.InputIsSymlink",
             "pre.OutputDirectoryMissing",
             "pre.OutputParentIsFile",
             "pre.OutputIsDirectory",
